@@ -686,6 +686,7 @@ PANIC_TABLE = [
     (r"half_connection::frame_queue::FrameLog::drain", "VecDeque::drain", r".*", "range end = new_base_id - base_id; caller (cull_log_entries) passes an id inside the log: linked to the span guards of forget_frames/advance_transfer_window (reviewed)", _lk_none),
     (r"half_connection::packet_receiver::assembly_window::fragment_buffer::FragmentBuffer::write", r"\[T\]::copy_from_slice", r".*", "destination range has the source's length by construction ([i*M .. i*M+len]); range validity is C04.c/C03.V (fragment id and size validated)", _lk_none),
     (r"frame::serial::write_handshake_syn", r"\[T\]::clone_from_slice", r".*", "writer side, fixed-size literal into a MAX_FRAME_SIZE buffer; not fed by network input", _lk_none),
+    (r"frame::serial::write_\w+", r"\[T\]::split_at_mut", r"Box::new\((array|repeat).*", "writer side: split point len - FRAME_CRC_SIZE of a fixed-size literal frame (every literal is longer than the CRC); not fed by network input", _lk_none),
     (r"server::Server::(handle_handshake_ack|handle_disconnect|handle_disconnect_ack|handle_data|handle_ack|handle_sync|handle_event|handle_events|step_active_clients|flush_active_clients|drop)", "RefCell::borrow_mut", r".*", "one RemoteClient borrow at a time inside the server (C03.P.refcell); an application holding its own RefMut across step() is API misuse", _lk_none),
     (r"server::Server::step::\{closure#0\}", "RefCell::borrow", r".*", "retain predicate; no other borrow live (C03.P.refcell)", _lk_none),
     (r"(<frame::Frame as frame::serial::Serialize>::read|frame::serial::read_\w+)", r"\[T\]::split_at", r".*", "split point within the slice: discharged as a `split` obligation of the parser index proof C03.I", _lk_none),
@@ -1575,7 +1576,13 @@ def check_index_inventory(cx, iid="C03.X"):
                 status = None
                 why = ""
                 m_arr = re.fullmatch(r"ptrmetadata\(arg1\.(\w+)\)", ln)
-                if re.fullmatch(r"\d+", ln):
+                m_tail = re.fullmatch(r"ptrmetadata\(Box::new\((?:array|repeat).*\)(?:\[RangeFull\{\}\])?\[RangeFrom\{sub\(\[T\]::len\(Box::new\((?:array|repeat).*\)(?:\[RangeFull\{\}\])?\),(?:frame::serial::FRAME_CRC_SIZE|(\d))\)\}\]\)", ln)
+                if m_tail and re.fullmatch(r"frame::serial::write_\w+", b.path) and re.fullmatch(r"\d+", idx):
+                    # writer side: the last c bytes of a fixed-size literal frame, taken with split_at_mut(len - c)
+                    c_ = int(m_tail.group(1)) if m_tail.group(1) else R.const_int("frame::serial::FRAME_CRC_SIZE")
+                    status = "literal-tail slice" if int(idx) < c_ else None
+                    why = "index %s into the %d-byte tail of a literal frame" % (idx, c_)
+                elif re.fullmatch(r"\d+", ln):
                     n = int(ln)
                     if re.fullmatch(r"\d+", idx):
                         status = "const" if int(idx) < n else None
@@ -1661,7 +1668,7 @@ INDEX_CALL_TABLE = [
     (r".*pending_packet::PendingPacket::datagram", r"arg1\.data", r"Range(From)?\{mul\(MAX_FRAGMENT_SIZE,(cast<usize>\()?arg2\)?\).*\}",
      "sender side: fragment ids 0..=last_fragment_id are enumerated from the packet's own length (C04.c, C04.h)"),
     (r".*serial::build::(DataFrameBuilder|AckFrameBuilder)::build", r"arg1\.buffer", r"\d+", "writer side: constant offset into a buffer created with the header already in it"),
-    (r".*frame::serial::write_\w+", r".*", r"Range(To|From)?\{.*\}", "writer side: fixed-size literal frames, ranges from the literal's own length"),
+    (r".*frame::serial::write_\w+", r".*", r"Range(To|From|Full)?\{.*\}", "writer side: fixed-size literal frames, ranges from the literal's own length"),
     (r"(server::Server|client::Client)::handle_frames", r"var", r"RangeTo\{UdpSocket::recv(_from)?\(arg1\.socket,var\)@Ok\.0(\.0)?\}", "recv returns at most the buffer's length"),
 ]
 
